@@ -40,7 +40,8 @@ fn mk(max_wait: Option<Duration>, max_calls: usize) -> (Bulkhead<Inner>, svc::Sc
         event_listeners: tower_resilience_core::EventListeners::new(),
     };
     let script = svc::any_script();
-    (Bulkhead::new(Inner::new(script), cfg), script)
+    // through the public layer (not the crate-internal constructor), as users build it
+    (tower_layer::Layer::layer(&crate::layer::BulkheadLayer::new(cfg), Inner::new(script)), script)
 }
 
 fn any_wait() -> Option<Duration> {
@@ -183,7 +184,7 @@ fn listeners_only_observe() {
     let mut script = svc::any_script();
     script.never = false;
     script.immediate = true;
-    let mut b = Bulkhead::new(Inner::new(script), cfg);
+    let mut b = tower_layer::Layer::layer(&crate::layer::BulkheadLayer::new(cfg), Inner::new(script));
     st().sem_avail = Avail::Always;
     st().sem_reported_available = 1;
     let req: u32 = kani::any();
